@@ -59,15 +59,15 @@ UNITS["core"] = dict(
              bounds="arbitrary stored latest seq < u32::MAX, arbitrary incoming seq, backlink absent/pred-hash/other"),
         dict(name="c05::newer_prune_point_accepted", prop="C05", timeout=120,
              encodes="validate_prunable_backlink (prune flag set)", bounds="as above"),
-        dict(name="ingest::ingest_accepts_only_extensions", prop="C03", timeout=600,
+        dict(name="ingest::ingest_accepts_only_extensions", prop="C03", timeout=300, native_search=True,
              encodes="ingest_operation (real async fn over a model store) -> validate_prunable_backlink -> validate_backlink",
              bounds="one ingest from an arbitrary stored head of one log (or an empty store); incoming operation: own/other author, own/other log, all u32 seq, backlink = head hash / other, both prune flags, known/unknown id, authentic/tampered"),
-        dict(name="ingest::ingest_accepts_extensions", prop="C03", timeout=600,
+        dict(name="ingest::ingest_accepts_extensions", prop="C03", timeout=300, native_search=True,
              encodes="as ingest_accepts_only_extensions (acceptance side)", bounds="as above, unknown id, authentic"),
-        dict(name="ingest::ingest_never_below_stored_height", prop="C05", timeout=600,
+        dict(name="ingest::ingest_never_below_stored_height", prop="C05", timeout=300, native_search=True,
              encodes="ingest_operation -> validate_prunable_backlink, both prune flags, against the stored head of the operation's own log",
              bounds="as ingest_accepts_only_extensions, own author and log"),
-        dict(name="ingest::ingest_validates_first_and_rejects_cleanly", prop="C01", timeout=600,
+        dict(name="ingest::ingest_validates_first_and_rejects_cleanly", prop="C01", timeout=300, native_search=True,
              encodes="ingest_operation: order of validate_operation / begin / insert / commit; rollback on rejection",
              bounds="as ingest_accepts_only_extensions; validate_operation's verdict = the harness' tampered flag"),
         dict(name="c18::increment_is_strict", prop="C18", tier="quick", timeout=60,
@@ -151,7 +151,10 @@ STRIP_TESTS = (r"\n#\[cfg\(test\)\]\nmod tests \{.*\Z", "\n", 1, "S")
 USE_MODELS = (r"^use std::collections::", "use crate::verif_models::", "+")
 COLLECTIONS = ("shared", "models/collections.rs", "src/collections.rs")
 _rows = [dict(name="c06::row_%02d" % i, prop="C06", tier="thorough", timeout=5400,
-              encodes="logs::compare", bounds="local shape %d x all 16 remote shapes, 2 authors x 2 logs, all u32 heights" % i) for i in range(16)]
+              encodes="logs::compare", bounds="local shape %d x all 16 remote shapes, 2 authors x 2 logs, all u32 heights" % i) for i in range(14)]
+# rows 14 and 15 (local side with 3 of 4 / all 4 logs present in both author entries x 16 remote shapes) exist in the harness
+# crate but are not registered: CBMC exhausts the 30 GB per-process cap on them when 8 rows run side by side (measured in
+# the last thorough run); their local shapes are still decided against 5 remote shapes by the two_authors_full_vs_* harnesses
 def _relax_vacuous(unit, names, labels):
     """harnesses whose local side is empty can never need a range: that branch is legitimately unreachable there"""
     for h in unit["harnesses"]:
@@ -197,8 +200,8 @@ _LOGS_TB = ["Kani 0.68 / CBMC 6.11 / cadical",
 PROPS["C06"] = dict(
     units=["logs"], trusted_base=_LOGS_TB,
     assumptions=["maps of at most 2 authors x 2 logs (2 model slots per map)", "shapes (which keys exist) enumerated concretely, heights symbolic"],
-    bounds="quick: 1 author x 2 logs all 25 shape pairs + 7 two-author shape pairs; thorough: all 16x16 log-presence pairs for 2 authors x 2 logs; all u32 heights",
-    outside="std's BTreeMap implementation itself; maps beyond 2x2; 'random large maps' (sampling) is not done",
+    bounds="quick: 1 author x 2 logs all 25 shape pairs + 7 two-author shape pairs; thorough: 14 of the 16 local log-presence shapes x all 16 remote shapes for 2 authors x 2 logs (224 shape pairs); all u32 heights",
+    outside="std's BTreeMap implementation itself; maps beyond 2x2; 'random large maps' (sampling) is not done; local shapes 14 and 15 (both authors present, 3 or 4 of the 4 logs) against all 16 remote shapes: CBMC runs out of memory (30 GB cap), they are only decided against the remote shapes of the two_authors_full_vs_* harnesses",
     level_text=("Bounded model checking of the real logs::compare / Cursor::compare over a contract model of BTreeMap: for every enumerated pair of map shapes and ALL "
                 "u32 heights the diff is exactly {(remote height or start, local height] for logs the remote lacks or is behind on}, nothing else, and merging it yields the pointwise maximum."),
     level_note="Trusted: Kani/CBMC; BTreeMap contract model (sorted unique keys); bound 2 authors x 2 logs.",
